@@ -81,6 +81,7 @@ theorem answer_spec (k : Bytes) : ∀ (as : List Lsm.Act) (s : Lsm.State) (m : L
       | rotate => rfl
       | flushBegin n => rfl
       | flushCommit => rfl
+      | flushAbort => rfl
       | compact rm lvl add => rfl
       | getA k0 => rfl
       | getB => rfl
